@@ -1031,6 +1031,5 @@ def _in_region(region: GRange, read, prefix: str) -> bool:
     if read.reference_end is None:
         return False
 
-    a = (read.reference_start, read.reference_end)
-    b = (region.start, region.end)
-    return a[0] <= b[0] <= a[1] or b[0] <= a[0] <= b[1]
+    # Both intervals are half-open: a read that only touches the region has no base in it
+    return read.reference_start < region.end and region.start < read.reference_end
